@@ -68,7 +68,7 @@ def run(ctx):
                          "non-trivial = schema with >= 3 nodes and >= 2 rules")
     ctx.assumptions += ["decided by comparison with an oracle computed from the abstract schema (differential), no Coq model of the AST builder: partial"]
     cases = []
-    n = 500 if quick else 20000
+    n = 2500 if quick else 40000
     for _ in range(n):
         w = J.rand_rule_schema(rng, rng.randint(0, 4))
         add_notes(rng, w)
